@@ -218,7 +218,6 @@ theorem logsDelAll_get (h : Bucket HKey Hist) (b : Nat) (d : Diff) (hwf : d.WF) 
       d.nonces hwf.nonceNodup]
     rw [storageFold_frame (fun h key (_ : Nat) => histDel h key b) (fun old _ => hdel old b) hop d.storage h _ (by intro a k e; cases e)]
     simp only [ocases_isSome]
-    rfl
   | classHash a =>
     simp only
     rw [histFold_get (fun h key (_ : Nat) => histDel h key b) (fun old _ => hdel old b) hop HKey.classHash (by intro x y e; cases e; rfl)
@@ -226,6 +225,5 @@ theorem logsDelAll_get (h : Bucket HKey Hist) (b : Nat) (d : Diff) (hwf : d.WF) 
     rw [histFold_frame (fun h key (_ : Nat) => histDel h key b) (fun old _ => hdel old b) hop HKey.nonce _ _ _ (by intro x e; cases e)]
     rw [storageFold_frame (fun h key (_ : Nat) => histDel h key b) (fun old _ => hdel old b) hop d.storage h _ (by intro a k e; cases e)]
     simp only [ocases_isSome]
-    rfl
 
 end Juno.C03
